@@ -144,9 +144,12 @@ pub fn materialise_disk(t: &NTree, r: &str) -> Result<(), String> {
 /// Build the same tree inside a Memfs below r through the public API (the only way in)
 pub fn materialise_memfs(t: &NTree, r: &str) -> Result<Memfs, String> {
     let m = Memfs::new();
-    m.mkdir_p(r).map_err(|e| e.to_string())?;
+    let rr = if r.is_empty() { "/".to_string() } else { r.to_string() };
+    if !r.is_empty() {
+        m.mkdir_p(r).map_err(|e| e.to_string())?;
+    }
     for (k, n) in &t.nodes {
-        let p = if k == "/" { r.to_string() } else { format!("{}{}", r, k) };
+        let p = if k == "/" { rr.clone() } else { format!("{}{}", r, k) };
         match &n.kind {
             NKind::Dir => {
                 if k != "/" {
@@ -161,7 +164,7 @@ pub fn materialise_memfs(t: &NTree, r: &str) -> Result<Memfs, String> {
     for (k, n) in &t.nodes {
         if let NKind::Link { target, .. } = &n.kind {
             let p = format!("{}{}", r, k);
-            let tgt = if target == "/" { r.to_string() } else { format!("{}{}", r, target) };
+            let tgt = if target == "/" { rr.clone() } else { format!("{}{}", r, target) };
             m.symlink(&p, &tgt).map_err(|e| format!("symlink {}: {}", p, e))?;
         }
     }
@@ -169,12 +172,12 @@ pub fn materialise_memfs(t: &NTree, r: &str) -> Result<Memfs, String> {
         if matches!(n.kind, NKind::Link { .. }) {
             continue;
         }
-        let p = if k == "/" { r.to_string() } else { format!("{}{}", r, k) };
+        let p = if k == "/" { rr.clone() } else { format!("{}{}", r, k) };
         if n.mode & 0o7777 != 0 {
             m.chmod_b(&p).and_then(|c| c.all(n.mode & 0o7777).no_recurse().exec()).map_err(|e| format!("chmod {}: {}", p, e))?;
         }
     }
-    m.set_cwd(r).map_err(|e| e.to_string())?;
+    m.set_cwd(&rr).map_err(|e| e.to_string())?;
     Ok(m)
 }
 
